@@ -2,7 +2,7 @@
    DBNInference's interface algorithm as coded, BeliefPropagation replaced by its specification);
    Spec: coq/C17/Spec.v (brute-force marginal of the unrolled network). *)
 From Coq Require Import List Arith Bool PeanoNat Lia QArith Qcanon.
-From PV Require Import Base.Semiring Base.Ravel Base.FinSum Base.RefFactor C17.Model C17.Spec C17.Proofs C17.ProofsInduction C17.ProofsFinite.
+From PV Require Import Base.Semiring Base.Ravel Base.FinSum Base.RefFactor C17.Model C17.Spec C17.Proofs C17.ProofsInduction C17.ProofsEvidenceAll C17.ProofsEvidenceMore C17.ProofsFinite.
 Import ListNotations.
 Local Open Scope nat_scope.
 
@@ -276,3 +276,127 @@ Theorem C17_add_edges_accepted es g g' :
   dbn_add_edges g es = Ok g' -> dbn_add_edges_partial g es = (g', true).
 Proof. exact (add_edges_partial_ok es g g'). Qed.
 Print Assumptions C17_add_edges_accepted.
+
+(* ---- forward filtering WITH evidence, all t, all templates of the class (ProofsEvidenceAll.v).
+   Class: as in C17_forward_filtering_interface_message (head names = tail names, ...); evidence: any list of
+   (variable, slice, state) on NON-interface variables (names that are no tails of inter edges), any slices.
+   (1) the interface potential of slice t -- what forward_inference propagates -- is the marginal, onto the slice-t
+       interface, of the product of the network unrolled to t slices evaluated at the evidence e_{0..t}
+       (unnormalised: exactly P(I_t, e_{0..t})) *)
+Theorem C17_forward_message_with_evidence N cards (F0 F1 : list (factor Qc_sum_csr)) (I0 I1 : list var) (ev : evidence) :
+  N <> 0 ->
+  Forall (fun f : factor Qc_sum_csr => NoDup (fvars f)) F0 ->
+  Forall (fun f : factor Qc_sum_csr => NoDup (fvars f)) F1 ->
+  (forall v, In v (scope_of F0) -> v < N) ->
+  (forall v, In v (scope_of F1) -> v < 2 * N) ->
+  (forall v, In v (scope_of F1) -> v < N -> In v I0) ->
+  (forall v, In v I0 -> v < N) ->
+  (forall v, In v I0 -> In v (scope_of F1)) ->
+  (forall v, In v I1 <-> exists n, In n I0 /\ v = n + N) ->
+  (forall e, In e ev -> fst (fst e) < N /\ ~ In (fst (fst e)) I0) ->
+  forall t a, valid (card N cards) a ->
+    feval Qc_sum_csr (card N cards) (potE N cards F0 F1 I0 I1 ev t) a =
+    sum_over (R := Qc_sum_csr) (RsumE N cards F0 F1 I0 I1 ev t) (map (card N cards) (RsumE N cards F0 F1 I0 I1 ev t))
+             (fun x => eval_prod Qc_sum_csr (card N cards) (unroll N F0 F1 t) (upds x (Eglob N ev t))) (up N a).
+Proof.
+  intros HN H1 H2 H3 H4 H5 H6 H7 H8 H9 t a Hv.
+  exact (potE_marginal N cards HN F0 F1 I0 I1 ev H1 H2 H3 H4 H5 H6 H7 H8 H9 t a Hv).
+Qed.
+Print Assumptions C17_forward_message_with_evidence.
+
+(* (2) the answer: for a query variable of the last slice T >= 1 (unobserved, with a slice-1 CPD), evidence on
+   non-interface variables in any slices <= T given as a dict, every variable with a slice-0 and a slice-1 CPD,
+   positive cardinalities: forward_inference returns the posterior of the unrolled network (Spec.spec_filter =
+   brute-force normalised marginal given all the evidence); it fails with error 5 exactly when the specification is
+   undefined, i.e. when P(e) = 0 *)
+Theorem C17_forward_filtering_with_evidence N cards (F0 F1 : list (factor Qc_sum_csr)) (I0 I1 : list var) (ev : evidence) qn tq :
+  N <> 0 ->
+  Forall (fun f : factor Qc_sum_csr => NoDup (fvars f)) F0 ->
+  Forall (fun f : factor Qc_sum_csr => NoDup (fvars f)) F1 ->
+  (forall v, In v (scope_of F0) -> v < N) ->
+  (forall v, In v (scope_of F1) -> v < 2 * N) ->
+  (forall v, In v (scope_of F1) -> v < N -> In v I0) ->
+  (forall v, In v I0 -> v < N) ->
+  (forall v, In v I0 -> In v (scope_of F1)) ->
+  (forall v, In v I1 <-> exists n, In n I0 /\ v = n + N) ->
+  (forall e, In e ev -> fst (fst e) < N /\ ~ In (fst (fst e)) I0) ->
+  (forall e, In e ev -> snd (fst e) <= S tq) ->
+  (forall v, 0 < card N cards v) ->
+  qn < N ->
+  In (enc N (qn, 1)) (scope_of F1) ->
+  ~ In (qn, S tq) (map fst ev) ->
+  (forall n, n < N -> In n (scope_of F0)) ->
+  (forall n, n < N -> In (n + N) (scope_of F1)) ->
+  NoDup (map fst ev) ->
+  forward_inference N cards F0 F1 I0 I1 [(qn, S tq)] ev =
+  match spec_filter N cards F0 F1 (S tq) (qn, S tq) ev with
+  | Some v => Ok [((qn, S tq), v)]
+  | None => Err 5
+  end.
+Proof.
+  intros HN H1 H2 H3 H4 H5 H6 H7 H8 H9 H10 H11 H12 H13 H14 H15 H16 H17.
+  exact (forward_is_posterior N cards HN F0 F1 I0 I1 ev H1 H2 H3 H4 H5 H6 H7 H8 H9 qn tq H10 H11 H12 H13 H14 H15 H16 H17).
+Qed.
+Print Assumptions C17_forward_filtering_with_evidence.
+
+(* non-vacuity: A -> B inside a slice, A_0 -> A_1 (N = 2); evidence B_0 = 1, B_1 = 0 (B is not an interface
+   variable), query B_2: all hypotheses hold and P(e) <> 0 *)
+Example C17_forward_filtering_with_evidence_example :
+  let F0 := [mkF [0] [q4 1; q4 3]; mkF [1; 0] [q4 1; q4 2; q4 3; q4 2]] in
+  let F1 := [mkF [2; 0] [q4 3; q4 1; q4 1; q4 3]; mkF [3; 2] [q4 1; q4 2; q4 3; q4 2]] in
+  let I0 := [0] in let I1 := [2] in
+  let ev : evidence := [((1, 0), 1); ((1, 1), 0)] in
+  (forall e, In e ev -> fst (fst e) < 2 /\ ~ In (fst (fst e)) I0) /\
+  (forall e, In e ev -> snd (fst e) <= 2) /\
+  (forall v, 0 < card 2 [2; 2] v) /\
+  In (enc 2 (1, 1)) (scope_of F1) /\ ~ In (1, 2) (map fst ev) /\
+  (forall n, n < 2 -> In n (scope_of F0)) /\ (forall n, n < 2 -> In (n + 2) (scope_of F1)) /\
+  NoDup (map fst ev) /\
+  spec_filter 2 [2; 2] F0 F1 2 (1, 2) ev <> None /\
+  exists v, forward_inference 2 [2; 2] F0 F1 I0 I1 [(1, 2)] ev = Ok [((1, 2), v)].
+Proof.
+  cbn zeta. split; [|split; [|split; [|split; [|split; [|split; [|split; [|split; [|split]]]]]]]].
+  - intros e [<-|[<-|[]]]; cbn; split; try lia; intros [H|[]]; discriminate.
+  - intros e [<-|[<-|[]]]; cbn; lia.
+  - intros v. unfold card. pose proof (Nat.mod_upper_bound v 2 ltac:(lia)) as Hm.
+    destruct (v mod 2) as [|[|m]]; cbn; lia.
+  - vm_compute. tauto.
+  - cbn. intros [H|[H|[]]]; discriminate.
+  - intros n Hn. vm_compute. destruct n as [|[|n]]; [tauto|tauto|lia].
+  - intros n Hn. destruct n as [|[|n]]; [vm_compute; tauto|vm_compute; tauto|lia].
+  - cbn. constructor; [intros [H|[]]; discriminate|constructor; [intros []|constructor]].
+  - vm_compute. discriminate.
+  - eexists. vm_compute. reflexivity.
+Qed.
+
+(* (3) evidence in ANY slices (also after the query's slice; no bound on the evidence slices): the later evidence
+   only makes the run propagate more potentials; the answer for a query variable of slice T >= 1 is the posterior of
+   the network unrolled to T slices given the evidence of slices <= T (what Spec.spec_filter computes) *)
+Theorem C17_forward_filtering_with_evidence_any_slices N cards (F0 F1 : list (factor Qc_sum_csr)) (I0 I1 : list var) (ev : evidence) qn tq :
+  N <> 0 ->
+  Forall (fun f : factor Qc_sum_csr => NoDup (fvars f)) F0 ->
+  Forall (fun f : factor Qc_sum_csr => NoDup (fvars f)) F1 ->
+  (forall v, In v (scope_of F0) -> v < N) ->
+  (forall v, In v (scope_of F1) -> v < 2 * N) ->
+  (forall v, In v (scope_of F1) -> v < N -> In v I0) ->
+  (forall v, In v I0 -> v < N) ->
+  (forall v, In v I0 -> In v (scope_of F1)) ->
+  (forall v, In v I1 <-> exists n, In n I0 /\ v = n + N) ->
+  (forall e, In e ev -> fst (fst e) < N /\ ~ In (fst (fst e)) I0) ->
+  (forall v, 0 < card N cards v) ->
+  qn < N ->
+  In (enc N (qn, 1)) (scope_of F1) ->
+  ~ In (qn, S tq) (map fst ev) ->
+  (forall n, n < N -> In n (scope_of F0)) ->
+  (forall n, n < N -> In (n + N) (scope_of F1)) ->
+  NoDup (map fst ev) ->
+  forward_inference N cards F0 F1 I0 I1 [(qn, S tq)] ev =
+  match spec_filter N cards F0 F1 (S tq) (qn, S tq) ev with
+  | Some v => Ok [((qn, S tq), v)]
+  | None => Err 5
+  end.
+Proof.
+  intros HN H1 H2 H3 H4 H5 H6 H7 H8 H9 H11 H12 H13 H14 H15 H16 H17.
+  exact (forward_is_posterior_any N cards HN F0 F1 I0 I1 ev H1 H2 H3 H4 H5 H6 H7 H8 H9 qn tq H11 H12 H13 H14 H15 H16 H17).
+Qed.
+Print Assumptions C17_forward_filtering_with_evidence_any_slices.
